@@ -18,7 +18,7 @@ Lemma row_spec_lifts : forall r, r_gate r <> VMov -> row_spec r -> row_in_every_
 Proof.
   intros r Hm Hs R rO rI radd rmul rsub ropp Rth omega half H32 H2.
   unfold row_spec in Hs.
-  destruct (r_gate r) eqn:Eg; try (exfalso; apply Hm; reflexivity);
+  destruct (r_gate r) as [g1x|ax nx dx|g2x| |nm Gc] eqn:Eg; try (exfalso; apply Hm; reflexivity);
     destruct Hs as [U [G [Hc [Hg Hp]]]];
     destruct (circuit_lift_all R rO rI radd rmul rsub ropp Rth omega half H32 H2 _ _ U G Hc Hp) as [p [Hp1 Hp2]];
     exists G, p; (split; [exact Hg | split; [exact Hp1 | exact Hp2]]).
